@@ -64,6 +64,8 @@ PROP = {
          'pkg': 'pkg/descheduler/controllers/migration/arbitrator',
          'files': ['C16/c16_arbitrator_test.go'],
          'tests': [{'run': 'TestVerifC16ArbitrationRounds', 'quick': 300, 'quick_shards': 4, 'thorough': 1200, 'steps': 50,
+                    'shrinktime': '15s'},
+                   {'run': 'TestVerifC16ArbitrationEvents', 'quick': 300, 'quick_shards': 4, 'thorough': 1200, 'steps': 50,
                     'shrinktime': '15s'}]},
     ],
     'manifest': {
